@@ -1292,6 +1292,19 @@ pub fn fixed_cases(tier: Tier) -> Vec<Case> {
             }
         }
     }
+    // plain hex ids of every length, the appendix (age) around u32::MAX and with leading zeros
+    for len in 0..=48usize {
+        for upper in [true, false] {
+            if let Some(s) = id_with_char(len, len, "", upper) {
+                ops.push(format!("debugid {}", hx(&s)));
+            }
+        }
+    }
+    let uuid = "BE4E976C325246EE9D6B7847A670B2A9";
+    for age in ["0", "1", "a", "ffffffff", "100000000", "0ffffffff", "00000000000000000001", "fffffffff", "FFFFFFFF", "7fffffff", "80000000"] {
+        ops.push(format!("debugid {}", hx(&format!("{uuid}{age}"))));
+        ops.push(format!("debugid {}", hx(&format!("{}{age}", uuid.to_lowercase()))));
+    }
     chunked("debugids", ops, 120, &mut out);
     // (9) every inline depth 0..40 served value-for-value, a valid index with every symbol entry at every boundary
     let mut rng = Rng::new(0xC08);
